@@ -325,7 +325,7 @@ PLANS["C16"]["rule"] += " The session-closure stage of C01/C05/... also runs in 
 # ---------------------------------------------------------------- generated declarations (C09, C11 stage 2, C12)
 
 _BATCHES = {"batches_quick": [4, 30, 20], "batches_thorough": [12, 60, 40]}
-_DECL_RULE = ("declarations are produced by a seeded generator over a grammar covering every attribute the derive macros read (unit / struct / tuple(sub-command) variants; explicit and kebab-case names incl. multi-byte; positional / option / flag fields of all 17 supported types; Option<T>; default_value, default_value_t bare and with an expression; generated and explicit short/long incl. non-ASCII; value_name; "
+_DECL_RULE = ("declarations are produced by a seeded generator over a grammar covering every attribute the derive macros read (unit / struct / tuple(sub-command) variants; explicit and kebab-case names incl. multi-byte; positional / option / flag fields of all 17 supported types and of two application-defined FromArgument types (one borrowing from the line); Option<T>; default_value, default_value_t bare and with an expression; generated and explicit short/long incl. non-ASCII; value_name; "
               "named #[command(subcommand)] fields required and optional, nesting <= 3; CommandGroups of 1-3 enums with hidden members and a trailing RawCommand catch-all; help_title; doc comments absent / one line / two lines / multi-paragraph), emitted as Rust source with the derives, compiled with the repository's macros from /repo's working tree, and executed. ")
 PLANS["C09"] = {
     "level": "exploration",
